@@ -1753,6 +1753,57 @@ def rule_R9blockon(text, applied):
     return text
 
 
+def rule_R36(text, applied, arg=None):
+    """(optional arg: the type of the result vector, for type inference) sync projection of `futures::future::try_join_all(SRC.map(|X| CALL)).await?` (apply BEFORE R9): the futures of a
+    non-yielding provider complete in the order they are polled, so the result is the vector of the CALL results in the
+    order SRC yields them, and the first Err leaves the function:
+      { let srcN_ = vmaterialize(SRC); let mut tjN_ = Vec::new(); let mut tkN_: usize = 0;
+        while tkN_ < srcN_.len() { let X = srcN_[tkN_]; tkN_ += 1; match CALL { Ok(v_) => { tjN_.push(v_); } Err(e_) => { return Err(e_); } } }
+        tjN_ }
+    SRC is materialised by `vmaterialize` (a trusted helper per source: the sequence the iterator yields)."""
+    cnt = 0
+    while True:
+        m_text = mask(text)
+        m = re.search(r"(?:futures::future::)?try_join_all\s*\(", m_text)
+        if not m:
+            break
+        op = m.end() - 1
+        cp = match_close(m_text, op)
+        inner, inner_m = text[op + 1:cp], m_text[op + 1:cp]
+        mm = re.search(r"\.\s*map\s*\(\s*\|\s*(\w+)\s*\|\s*", inner_m)
+        if not mm:
+            raise ExtractError("R36: try_join_all(SRC.map(|x| CALL)) expected (outside the subset)")
+        src_e = " ".join(inner[:mm.start()].split())
+        mop = inner_m.index("(", inner_m.index("map", mm.start()))
+        mcp = match_close(inner_m, mop)
+        call = inner[mm.end():mcp].strip().rstrip(",").strip()
+        if call.startswith("{") and match_close(mask(call), 0) == len(call) - 1:
+            call = call[1:-1].strip()
+        if inner_m[mcp + 1:].strip().strip(","):
+            raise ExtractError("R36: unexpected text after the map closure (outside the subset)")
+        am = re.match(r"\s*\.\s*await\s*\?", m_text[cp + 1:])
+        if not am:
+            raise ExtractError("R36: try_join_all(..) is not followed by `.await?` (outside the subset)")
+        end = cp + 1 + am.end()
+        n = cnt
+        code = (f"{{ let src{n}_ = vmaterialize({src_e}); let mut tj{n}_{(': ' + arg) if arg else ''} = Vec::new(); let mut tk{n}_: usize = 0; while tk{n}_ < src{n}_.len() "
+                f"{{ let {mm.group(1)} = src{n}_[tk{n}_]; tk{n}_ += 1; match {' '.join(call.split())} {{ Ok(v_) => {{ tj{n}_.push(v_); }} Err(e_) => {{ return Err(e_); }} }} }} tj{n}_ }}")
+        text = text[:m.start()] + _keep_newlines(text[m.start():end], code) + text[end:]
+        cnt += 1
+    if cnt:
+        applied.append(f"R36x{cnt}")
+    return text
+
+
+def rule_R37(text, applied):
+    """`E.into_iter().flatten().copied().collect()` on a Vec of slices -> `E.vflat()` (verified helper: the elements of the
+    slices, slice by slice, in order -- the std definition of flatten + copied + collect)."""
+    t, n = _sub_masked(text, r"\.\s*into_iter\(\)\s*\.\s*flatten\(\)\s*\.\s*copied\(\)\s*\.\s*collect\(\)", lambda m, s_: ".vflat()")
+    if n:
+        applied.append(f"R37x{n}")
+    return t
+
+
 def rule_R8bitget(text, applied):
     """`E.get(I).as_deref().copied()` on a BitVec -> `E.vget(I)` (stub method: Some(bit) in range, None beyond)."""
     t, n = _sub_masked(text, r"\.\s*get\(([^\)]+)\)\s*\.\s*as_deref\(\)\s*\.\s*copied\(\)", lambda m, s: f".vget({m.group(1).strip()})")
@@ -2027,7 +2078,7 @@ RULES = {
     "R25": rule_R25, "R7optake": rule_R7optake,
     "R23": rule_R23, "R24": rule_R24,
     "R16push": rule_R16push, "R22": rule_R22, "R22flat": rule_R22flat,
-    "R20": rule_R20, "R21": rule_R21, "R7stackrev": rule_R7stackrev, "R7pairs": rule_R7pairs, "R7indexmap": rule_R7indexmap, "R12frozen": rule_R12frozen, "R35": rule_R35, "R16oiw": rule_R16oiw, "R9blockon": rule_R9blockon, "R34": rule_R34, "R31": rule_R31, "R30": rule_R30, "R26it": rule_R26it, "R29": rule_R29, "R7own": rule_R7own, "R28": rule_R28, "R27": rule_R27, "R8all": rule_R8all, "R16od": rule_R16od, "R10site": rule_R10site,
+    "R20": rule_R20, "R21": rule_R21, "R7stackrev": rule_R7stackrev, "R7pairs": rule_R7pairs, "R7indexmap": rule_R7indexmap, "R12frozen": rule_R12frozen, "R37": rule_R37, "R36": rule_R36, "R35": rule_R35, "R16oiw": rule_R16oiw, "R9blockon": rule_R9blockon, "R34": rule_R34, "R31": rule_R31, "R30": rule_R30, "R26it": rule_R26it, "R29": rule_R29, "R7own": rule_R7own, "R28": rule_R28, "R27": rule_R27, "R8all": rule_R8all, "R16od": rule_R16od, "R10site": rule_R10site,
     "R1": rule_R1, "R2": rule_R2, "R2ref": rule_R2ref, "R3": rule_R3, "R4": rule_R4, "R5": rule_R5,
     "R8max": rule_R8max, "R8cmpmax": rule_R8cmpmax, "R8resize_none": rule_R8resize_none, "R9": rule_R9, "R8position": rule_R8position, "R8rotate": rule_R8rotate, "R12refcell": rule_R12refcell,
     "R8slice": rule_R8slice, "R7iter": rule_R7iter, "R8bitget": rule_R8bitget, "R8intonext": rule_R8intonext, "R8rposition": rule_R8rposition, "R8contains": rule_R8contains, "R12cell": rule_R12cell, "R8resize_veccap": rule_R8resize_veccap, "R8collectid": rule_R8collectid, "R8index": rule_R8index, "subst": rule_subst,
